@@ -1,7 +1,11 @@
 ---------------------------- MODULE CacheValidity_MC ----------------------------
-(* The cache protocol as a state machine: world x cache entry, edited by the outside world
+(* The cache protocol as a state machine: world x cache entries, edited by the outside world
    (EditEbuild, TouchEbuild, EditEclass, TouchEclass, RemoveEclass, MoveEclass, StripInherit)
-   and read by pkgcore (Read = validate, use or regenerate + replace).
+   and read by pkgcore (Read(S) = one session validating, using or regenerating + replacing
+   the entries of the packages in S).  The world holds the packages Pkgs (each with its own
+   ebuild and its own cache entry) which SHARE the eclass files: the criterion is per entry, a
+   session has no memory across packages - every package's outcome depends only on its own
+   entry and the world.
    TLC checks over every history up to MaxSteps from every small initial world that the
    criterion of the property is SUFFICIENT for what it is there for: a read never returns
    anything but the metadata a from-scratch regeneration yields (ReadFresh), valid entries
@@ -14,23 +18,27 @@
    (flat cache ignoring the eclass directory) must make TLC find a ReadFresh counterexample.   *)
 EXTENDS CacheValidity, Sequences, TLC
 CONSTANTS Kinds,        \* cache kinds to explore: subset of {"md5", "flat"}
+          Pkgs,         \* packages of the world: {"p1"} or {"p1", "p2"}
           MaxCid, InitCid,   \* content ids edits may use / initial files may have
-          InitInh,           \* what the initial ebuild may inherit: subset of InhCodes
+          InitInh,           \* what the initial ebuilds may inherit: subset of InhCodes
           MaxSteps, CheckEclasses, CheckDir
 
-VARIABLES Kind, w, en, clock, last, steps, seen
-vars == <<Kind, w, en, clock, last, steps, seen>>
+VARIABLES Kind, w, ens, clock, last, steps, seen
+vars == <<Kind, w, ens, clock, last, steps, seen>>
+
+\* the world as one package sees it (the vocabulary of CacheValidity)
+View(W, p) == [eb |-> W.ebs[p], ecl |-> W.ecl]
 
 Files(n) == {AbsentFile} \cup {[cid |-> c, nest |-> x, mt |-> 0] : c \in 1..InitCid, x \in (IF n = "a" THEN BOOLEAN ELSE {FALSE})}
-InitWorlds == {[eb |-> [cid |-> 1, inh |-> i, mt |-> 0],
+InitWorlds == {[ebs |-> [p \in Pkgs |-> [cid |-> 1, inh |-> i[p], mt |-> 0]],
                 ecl |-> [r \in Repos |-> [n \in Eclasses |-> IF r = "m" THEN (IF n = "a" THEN ma ELSE mb)
                                                                        ELSE (IF n = "a" THEN oa ELSE ob)]]] :
-                 i \in InitInh, ma \in Files("a"), mb \in Files("b"), oa \in Files("a"), ob \in Files("b")}
-NoLast == [isread |-> FALSE]
+                 i \in [Pkgs -> InitInh], ma \in Files("a"), mb \in Files("b"), oa \in Files("a"), ob \in Files("b")}
+NoLast == [isread |-> FALSE, outs |-> <<>>]
 
 Init == /\ Kind \in Kinds
         /\ w \in InitWorlds
-        /\ en = AbsentEntry(Kind)
+        /\ ens = [p \in Pkgs |-> AbsentEntry(Kind)]
         /\ clock = 0
         /\ last = NoLast
         /\ steps = 0
@@ -44,64 +52,70 @@ Stamp == IF Kind = "flat" THEN clock + 1 ELSE 0
 Tick  == clock' = (IF Kind = "flat" THEN clock + 1 ELSE clock)
 Outside == /\ last' = NoLast /\ steps' = steps + 1 /\ UNCHANGED Kind
 
-EditEbuild(c, i) == /\ <<c, i>> # <<w.eb.cid, w.eb.inh>>
-                    /\ w' = [w EXCEPT !.eb = [cid |-> c, inh |-> i, mt |-> Stamp]]
-                    /\ Tick /\ Outside /\ UNCHANGED <<en, seen>>
-TouchEbuild == /\ Kind = "flat"
-               /\ w' = [w EXCEPT !.eb.mt = Stamp]
-               /\ Tick /\ Outside /\ UNCHANGED <<en, seen>>
+EditEbuild(p, c, i) == /\ <<c, i>> # <<w.ebs[p].cid, w.ebs[p].inh>>
+                       /\ w' = [w EXCEPT !.ebs[p] = [cid |-> c, inh |-> i, mt |-> Stamp]]
+                       /\ Tick /\ Outside /\ UNCHANGED <<ens, seen>>
+TouchEbuild(p) == /\ Kind = "flat"
+                  /\ w' = [w EXCEPT !.ebs[p].mt = Stamp]
+                  /\ Tick /\ Outside /\ UNCHANGED <<ens, seen>>
 EditEclass(r, n, c, x) == /\ (x => n = "a")
                           /\ <<c, x>> # <<w.ecl[r][n].cid, w.ecl[r][n].nest>>
                           /\ w' = [w EXCEPT !.ecl[r][n] = [cid |-> c, nest |-> x, mt |-> Stamp]]
                           /\ See(r, n, [cid |-> c, nest |-> x, mt |-> Stamp])
-                          /\ Tick /\ Outside /\ UNCHANGED en
+                          /\ Tick /\ Outside /\ UNCHANGED ens
 TouchEclass(r, n) == /\ Kind = "flat" /\ w.ecl[r][n].cid # 0
                      /\ w' = [w EXCEPT !.ecl[r][n].mt = Stamp]
                      /\ See(r, n, [w.ecl[r][n] EXCEPT !.mt = Stamp])
-                     /\ Tick /\ Outside /\ UNCHANGED en
+                     /\ Tick /\ Outside /\ UNCHANGED ens
 RemoveEclass(r, n) == /\ w.ecl[r][n].cid # 0
                       /\ w' = [w EXCEPT !.ecl[r][n] = AbsentFile]
-                      /\ Outside /\ UNCHANGED <<en, clock, seen>>
+                      /\ Outside /\ UNCHANGED <<ens, clock, seen>>
 MoveEclass(n, r1, r2) == /\ r1 # r2 /\ w.ecl[r1][n].cid # 0 /\ w.ecl[r2][n].cid = 0
                          /\ (Kind = "flat" => Faithful(r2, n, w.ecl[r1][n]))
                          /\ w' = [w EXCEPT !.ecl[r2][n] = w.ecl[r1][n], !.ecl[r1][n] = AbsentFile]
                          /\ See(r2, n, w.ecl[r1][n])
-                         /\ Outside /\ UNCHANGED <<en, clock>>
-StripInherit == /\ en.present /\ en.hasInherit
-                /\ en' = [en EXCEPT !.hasInherit = FALSE]
-                /\ Outside /\ UNCHANGED <<w, clock, seen>>
+                         /\ Outside /\ UNCHANGED <<ens, clock>>
+StripInherit(p) == /\ ens[p].present /\ ens[p].hasInherit
+                   /\ ens' = [ens EXCEPT ![p].hasInherit = FALSE]
+                   /\ Outside /\ UNCHANGED <<w, clock, seen>>
 
 \* the validity test of the modelled implementation (= Valid unless a vacuity guard weakens it)
-ImplEclassCurrent(r) == LET res == Resolve(w, r.name) IN
+ImplEclassCurrent(r) == LET res == Resolve(View(w, "p1"), r.name) IN      \* eclasses are shared: any view
                         /\ res.repo # "-"
                         /\ r.chf = Chf(Kind, EcContent(res.f), res.f.mt)
                         /\ ((Kind = "flat" /\ CheckDir) => r.dir = res.repo)
-ImplValid == /\ en.present /\ EbuildCurrent(Kind, en, w)
-             /\ (CheckEclasses => \A r \in en.ecl : ImplEclassCurrent(r))
-ImplOutcomes == IF ImplValid
-                THEN IF Legacy(en) THEN {UsedOutcome(en), RegenOutcome(Kind, w)} ELSE {UsedOutcome(en)}
-                ELSE {RegenOutcome(Kind, w)}
-Read == /\ \E o \in ImplOutcomes : /\ last' = [isread |-> TRUE, out |-> o]
-                                   /\ en' = o.en
-        /\ steps' = steps + 1
-        /\ UNCHANGED <<Kind, w, clock, seen>>
+ImplValid(p) == /\ ens[p].present /\ EbuildCurrent(Kind, ens[p], View(w, p))
+                /\ (CheckEclasses => \A r \in ens[p].ecl : ImplEclassCurrent(r))
+ImplOutcomes(p) == IF ImplValid(p)
+                   THEN IF Legacy(ens[p]) THEN {UsedOutcome(ens[p]), RegenOutcome(Kind, View(w, p))} ELSE {UsedOutcome(ens[p])}
+                   ELSE {RegenOutcome(Kind, View(w, p))}
+\* one session reading the packages S
+Read(S) == /\ S # {}
+           /\ \E o \in [S -> UNION {ImplOutcomes(p) : p \in S}] :
+                 /\ \A p \in S : o[p] \in ImplOutcomes(p)
+                 /\ last' = [isread |-> TRUE, outs |-> o]
+                 /\ ens' = [p \in Pkgs |-> IF p \in S THEN o[p].en ELSE ens[p]]
+           /\ steps' = steps + 1
+           /\ UNCHANGED <<Kind, w, clock, seen>>
 
-Step == \/ \E c \in 1..MaxCid, i \in InhCodes : EditEbuild(c, i)
-        \/ TouchEbuild
+Step == \/ \E p \in Pkgs, c \in 1..MaxCid, i \in InhCodes : EditEbuild(p, c, i)
+        \/ \E p \in Pkgs : TouchEbuild(p) \/ StripInherit(p)
         \/ \E r \in Repos, n \in Eclasses, c \in 1..MaxCid, x \in BOOLEAN : EditEclass(r, n, c, x)
         \/ \E r \in Repos, n \in Eclasses : TouchEclass(r, n) \/ RemoveEclass(r, n)
         \/ \E n \in Eclasses, r1, r2 \in Repos : MoveEclass(n, r1, r2)
-        \/ StripInherit
-        \/ Read
+        \/ \E S \in SUBSET Pkgs : Read(S)
 Next == steps < MaxSteps /\ Step          \* histories of at most MaxSteps actions
 Spec == Init /\ [][Next]_vars
 
 (* ------------------------------ properties ------------------------------ *)
-Coherent == Valid(Kind, en, w) => en.data = Fresh(w)
-ReadFresh == (last.isread /\ ~last.out.failed) => last.out.result = Fresh(w)
-ReadFailsOnlyWhenBroken == last.isread => (last.out.failed <=> (last.out.regen /\ ~CanRegen(w)))
-EntryValidAfterRead == (last.isread /\ ~last.out.failed) => (Valid(Kind, en, w) /\ (last.out.regen => ~Legacy(en)))
-NoEntryAfterFailure == (last.isread /\ last.out.failed) => ~en.present
-\* every read of the (unweakened) protocol is one the property allows
-ReadsAllowed == [][(last'.isread /\ steps' = steps + 1 /\ w' = w) => last'.out \in ReadOutcomes(Kind, en, w)]_vars
+ReadPkgs == DOMAIN last.outs
+Coherent == \A p \in Pkgs : Valid(Kind, ens[p], View(w, p)) => ens[p].data = Fresh(View(w, p))
+ReadFresh == \A p \in ReadPkgs : ~last.outs[p].failed => last.outs[p].result = Fresh(View(w, p))
+ReadFailsOnlyWhenBroken == \A p \in ReadPkgs : last.outs[p].failed <=> (last.outs[p].regen /\ ~CanRegen(View(w, p)))
+EntryValidAfterRead == \A p \in ReadPkgs : ~last.outs[p].failed =>
+                            (Valid(Kind, ens[p], View(w, p)) /\ (last.outs[p].regen => ~Legacy(ens[p])))
+NoEntryAfterFailure == \A p \in ReadPkgs : last.outs[p].failed => ~ens[p].present
+\* every read of the (unweakened) protocol is one the property allows, package by package
+ReadsAllowed == [][(last'.isread /\ steps' = steps + 1 /\ w' = w) =>
+                       \A p \in DOMAIN last'.outs : last'.outs[p] \in ReadOutcomes(Kind, ens[p], View(w, p))]_vars
 =============================================================================
